@@ -368,8 +368,12 @@ func runBAL1(c *load.Ctx, r *report.RuleResult) {
 		}
 		starts = []start{{blk, idx}}
 		note := ""
+		var alternatives [][]start // polarity unknown: the mark is on one of the two branches
 		if call, ok := s.ins.(*ssa.Call); ok {
-			if reports, val := markedWhen(call.Call.StaticCallee()); reports {
+			callee := call.Call.StaticCallee()
+			res := callee.Signature.Results()
+			if res.Len() == 1 && types.Identical(res.At(0).Type(), types.Typ[types.Bool]) {
+				reports, val := markedWhen(callee)
 				// find the If that tests the result (directly or negated)
 				var cond ssa.Value = call
 				neg := false
@@ -391,48 +395,69 @@ func runBAL1(c *load.Ctx, r *report.RuleResult) {
 						if iff, ok := ref.(*ssa.If); ok {
 							tb := iff.Block().Succs[0]
 							fb := iff.Block().Succs[1]
-							want := val != neg // the successor on which the helper's result equals val
-							if want {
-								starts = []start{{tb, 0}}
+							if reports {
+								want := val != neg // the successor on which the helper's result equals val
+								if want {
+									starts = []start{{tb, 0}}
+								} else {
+									starts = []start{{fb, 0}}
+								}
+								note = " on the branch on which " + callee.Name() + " reports the mark"
 							} else {
-								starts = []start{{fb, 0}}
+								// which answer means "marked" is not a constant of the helper (`return !seen`): the
+								// mark is on one of the two branches, and that one must be clean
+								alternatives = [][]start{{{tb, 0}}, {{fb, 0}}}
+								note = " on one of the two branches of the test of " + callee.Name() + "'s answer"
 							}
-							note = " on the branch on which " + call.Call.StaticCallee().Name() + " reports the mark"
 						}
 					}
 				}
 			}
 		}
 		// DFS
-		seen := map[*ssa.BasicBlock]bool{}
-		var leak ssa.Instruction
-		var walk func(b *ssa.BasicBlock, from int)
-		walk = func(b *ssa.BasicBlock, from int) {
-			if leak != nil {
-				return
-			}
-			if from == 0 {
-				if seen[b] {
+		leakFrom := func(sts []start) ssa.Instruction {
+			seen := map[*ssa.BasicBlock]bool{}
+			var leak ssa.Instruction
+			var walk func(b *ssa.BasicBlock, from int)
+			walk = func(b *ssa.BasicBlock, from int) {
+				if leak != nil {
 					return
 				}
-				seen[b] = true
-			}
-			for i := from; i < len(b.Instrs); i++ {
-				ins := b.Instrs[i]
-				if isUnmark(ins) {
-					return
+				if from == 0 {
+					if seen[b] {
+						return
+					}
+					seen[b] = true
 				}
-				if _, ok := ins.(*ssa.Return); ok {
-					leak = ins
-					return
+				for i := from; i < len(b.Instrs); i++ {
+					ins := b.Instrs[i]
+					if isUnmark(ins) {
+						return
+					}
+					if _, ok := ins.(*ssa.Return); ok {
+						leak = ins
+						return
+					}
+				}
+				for _, sb := range b.Succs {
+					walk(sb, 0)
 				}
 			}
-			for _, sb := range b.Succs {
-				walk(sb, 0)
+			for _, st := range sts {
+				walk(st.b, st.idx)
 			}
+			return leak
 		}
-		for _, st := range starts {
-			walk(st.b, st.idx)
+		var leak ssa.Instruction
+		if len(alternatives) > 0 {
+			for _, alt := range alternatives {
+				leak = leakFrom(alt)
+				if leak == nil {
+					break
+				}
+			}
+		} else {
+			leak = leakFrom(starts)
 		}
 		if leak != nil {
 			r.Bad(key, pos, fmt.Sprintf("the mark on %s (%s)%s reaches the return at %s without being taken off", s.f, s.what, note, c.Pos(leak.Pos())))
